@@ -4,8 +4,8 @@ import Verif.Model.EAB
 
   One history or one schedule per line, `key=value` fields separated by single spaces:
 
-    hist K=<key>,<key>…  R=<req>|<req>…                 sequential history  (`runHist`)
-    conc K=<key>,<key>…  R=<req>|<req>…  S=<digits>     schedule, digit = thread taking its next step (`runSched`)
+    hist v=2 K=<key>,<key>…  R=<req>|<req>…                 sequential history  (`runHist`)
+    conc v=2 K=<key>,<key>…  R=<req>|<req>…  S=<digits>     schedule, digit = thread taking its next step (`runSched`)
 
     key := id:prov:hasSecret:bound:account              (0/1 flags; account 0 = none)
     req := prov,requireEAB,outerKey,outerUrl,payloadOk,onlyExisting,bindingParses,<binding>
@@ -85,8 +85,12 @@ def render (st : State) (rs : List (Option Resp)) : String :=
 def digits (t : String) : Option (List Nat) :=
   t.toList.mapM fun c => if '0' ≤ c ∧ c ≤ '9' then some (c.toNat - 48) else none
 
+/-- version of the line protocol (see Driver/C12.lean) -/
+def protocolVersion : String := "2"
+
 def eval (line : String) : Option String := do
   let fs := fields line
+  if !fs.contains ("v=" ++ protocolVersion) then return "protocol-mismatch"
   let kind ← fs.head?
   let kv := fs.filterMap fun f =>
     match f.splitOn "=" with
